@@ -428,6 +428,11 @@ def run_case(case):
                     first_report = fins[0]["seq"] if fins else float("inf")
                     later_override = any(x["kind"] == "declare" and x["side"] == "D" and x["seq"] > first_report for x in following) or any(
                         x["kind"] == "rx" and x["side"] == "D" and x["d"].get("kind") == "EOF" and x["d"].get("cond") not in (None, "NO_ERROR") for x in following)
+                    # the receiver's own user may still issue a Cancel.request before the Finished PDU went out (it waits for PDUs queued earlier in
+                    # the call): C12 then requires Cancel Request Received in the Finished PDU and a Transaction-Finished with it
+                    if any(x["kind"] == "action" and x["side"] == "D" and x.get("what") == "cancel" and x["res"] is True for x in following):
+                        later_override = True
+                        obs["user_cancel_request_after_cancelling_fault"] = obs.get("user_cancel_request_after_cancelling_fault", 0) + 1
                     second = next((x for x in following if x["kind"] == "declare" and x["side"] == "D" and x["seq"] < first_report and x["tid"] == tid), None)
                     if second is not None:
                         viol.append(dict(where, clause="further-fault-declared-by-cancelled-transaction", second=second["cond"], step=second["step"]))
